@@ -203,12 +203,14 @@ CHECKS["C11"] = ("other",
     "de-duplication logic", "DESIGN.md §6 C11, reports/C08-C10-C11.md")
 CHECKS["C10"] = ("other",
     "PROVED in Coq: vec_in_order (for every derivation of a vector rule, in both recursion directions, the generated Vec "
-    "actions yield the elements in input order), tied each run to the real values; only the Vec actions of the default "
-    "builder are modelled. The other clauses (every content token exactly once across all type shapes, None iff absent, "
+    "actions yield the elements in input order), tied each run to the real values; ast_tokens_compositional + "
+    "std_actions_keep_order_partial (Model/DefaultAst.v: every action-body shape the generator writes keeps its arguments' "
+    "literals in order, hence the value of any derivation tree holds the content tokens in input order; the type deduction "
+    "that picks the shapes is not modelled and this model is not run against the code). The other clauses (every content token exactly once across all type shapes, None iff absent, "
     "GLR replay incl. right-nulled reductions, loc_info) are exploration: compiled default-builder parsers (LR and GLR, "
     "loc_info on/off) are run and the string literals of the Debug rendering of the returned value are compared with the "
     "content tokens of the generic parse tree of the same input (order, count, spans, number of None).",
-    "exploration of compiled real generated parsers against the generic tree + Coq proof for the vector actions",
+    "exploration of compiled real generated parsers against the generic tree + Coq proofs for the vector actions and the action-body shapes",
     "DESIGN.md §6 C10, reports/C08-C10-C11.md")
 
 CHECKS["C09"] = ("proof",
